@@ -296,6 +296,69 @@ func c01Tombstones(p *Prog, r *Report) {
 		f := p.FlatOf(fi)
 		sites := f.CallSites(kCFGet)
 		if len(sites) == 0 {
+			// the test may live in an iterator of the package that GetKeys ranges over: it yields a key only after
+			// a successful lookup, GetKeys lists what it yields and handles the error it yields
+			for _, rs := range rangeLoops(fi.Decl.Body) {
+				ic, ok := ast.Unparen(rs.X).(*ast.CallExpr)
+				if !ok {
+					continue
+				}
+				lit, yield := p.errIterator(fi.Pkg, ic)
+				if lit == nil {
+					continue
+				}
+				lf := p.FlatOf(lit)
+				lsites := lf.CallSites(kCFGet)
+				if len(lsites) == 0 {
+					continue
+				}
+				yields := lf.Match(func(n *GNode) bool {
+					for _, c := range callsIn(n.Ast, false) {
+						if objOf(info, c.Fun) == yield && len(c.Args) == 2 {
+							if sel, ok := ast.Unparen(c.Args[0]).(*ast.SelectorExpr); ok && sel.Sel.Name == "Key" {
+								return true
+							}
+						}
+					}
+					return false
+				})
+				for _, s := range lsites {
+					ok, _, st := lf.GatedBy(s, yields, "is:fs_db.ErrNotFound")
+					// (a missing record is tolerated by the gate only when that path does not reach a yield of the key)
+					ok2, _, _ := lf.GatedBy(s, yields)
+					pre := true
+					for _, a := range yields {
+						if !lf.MustPrecede(setOf([]int{s.Node}), a) {
+							pre = false
+						}
+					}
+					_ = ok
+					r.Check(ok2 && pre && len(yields) > 0, "C01.e", kStoreGetKeys+"#content-record-test", p.pos(s.Call), "a key is yielded only after a successful content-record lookup",
+						"a key can be listed although its content record lookup failed or was not made ("+strings.Join(st, ",")+")")
+					lf.SiteConsumed(r, "C01.e", kStoreGetKeys+"#lookup-error", lit, s, flowOpts{Class: true, Tolerated: []string{"is:fs_db.ErrNotFound"}, SinkParams: map[types.Object]bool{yield: true}})
+				}
+				if eo := objOf(info, rs.Value); rs.Value != nil && eo != nil && isErrorType(eo.Type()) {
+					f.RangeErrConsumed(r, "C01.e", kStoreGetKeys+"#iterator-error", fi, rs, eo, flowOpts{Class: true})
+				}
+				// what the iterator yields is listed
+				listed := false
+				if ko := objOf(info, rs.Key); rs.Key != nil && ko != nil {
+					ast.Inspect(rs.Body, func(x ast.Node) bool {
+						if c, ok := x.(*ast.CallExpr); ok {
+							if id, ok := c.Fun.(*ast.Ident); ok && id.Name == "append" {
+								for _, a := range c.Args[1:] {
+									if objOf(info, a) == ko {
+										listed = true
+									}
+								}
+							}
+						}
+						return true
+					})
+				}
+				r.Check(listed, "C01.e", kStoreGetKeys+"#yielded-keys-listed", p.pos(rs), "the keys the iterator yields are appended to the result", "GetKeys does not list the keys its iterator yields")
+				return
+			}
 			r.Viol("C01.e", kStoreGetKeys+"#content-record-test", p.pos(fi.Decl), "GetKeys no longer tests the content record: deleted keys are listed")
 			return
 		}
